@@ -8,7 +8,7 @@
   (every style, picture), EG/Lemmas/CallTranslate.lean (moved calls => shifted picture).
 
   -- [V] text: coordinates for which the text's bounding box leaves the `i32` range while exactly one of text / background colour is set (guard `Rect.InRange` of the box false: `Rectangle::points` of a glyph cell saturates; C08's topic): carried by correspondence + oracle only; proved: positions, returned position, box, calls on the binary target for every style, target calls for every style (box in range; no guard when both or neither colour is set), picture on both targets
-  -- [V] text: `translate_mut` has the same effect as `translate` (mutation through `&mut self` is not modelled; `translate_mut_eq_translate` is definitional in the model): carried by correspondence + oracle only
+  -- [V] text, `translate_mut`: that Rust's `&mut self` field assignment is the functional field update of the model is language semantics, carried by the oracle only; PROVED on the model of the in-place body as the source writes it (EG/Model/TranslateMut.lean), for all inputs: `text_translate_mut` (Props/C07/TranslateMut.lean: `self.position += by` as two coordinate updates = `translate`); oracle class `C07:text-translate-mut-ne-translate`, the `mut=` field of `text.layout`
 -/
 import EG.Lemmas.TextLayoutTranslateColor
 namespace EG.C07.Text
@@ -17,10 +17,11 @@ open EG EG.Font EG.TextLayout EG.Tgt
 /-- `translate_mut` does what `translate` does, and only the position changes.
 DEFINITIONAL (every component is `rfl`): the model defines `Text.translateMut` and `Text.translate`
 by the same expression (`position += by` / `position + by`, text.rs:92-105), so this states how the
-model was written, not a property of the code; mutation through `&mut self` is not modelled.
-"`translate_mut` has the same effect as `translate`" is carried by the oracle on the real code
-(`C07:text-translate-mut-ne-translate`, the `mut=` field of `text.layout`), see the [V] line below. Not to be counted as a
-proved sub-claim. -/
+model was written, not a property of the code. The in-place body as the source writes it
+(`self.position += by` = `self.x += ..; self.y += ..`) is modelled in EG/Model/TranslateMut.lean and
+proved equal to `translate` in Props/C07/TranslateMut.lean (`text_translate_mut`); that a Rust `&mut`
+assignment is that field update is carried by the oracle on the real code
+(`C07:text-translate-mut-ne-translate`, the `mut=` field of `text.layout`), see the [V] line above. -/
 theorem translate_mut_eq_translate (t : TextLayout.Text) (d : Pt) :
     t.translateMut d = t.translate d ∧ (t.translate d).position = t.position + d ∧
     (t.translate d).text = t.text ∧ (t.translate d).style = t.style ∧ (t.translate d).ts = t.ts :=
